@@ -39,8 +39,8 @@ ASSUMPTIONS = [
     "EAPI 9 is disabled in this sandbox (bash 5.2): EAPIs 0-8 only",
 ]
 BOUNDS = {
-    "quick": "nested shape: 72 rotations (origins spread evenly over the 600 core patterns; 11 variables x 72 = 792 variable/pattern combinations) x EAPIs {0,5,7,8}; none/single/flat/diamond: 12/24/24/36 rotations x EAPIs {0,8}; 8 phase configurations rotating; 480 repositories",
-    "thorough": "nested shape: all rotations of the full pattern list (every variable meets every pattern) x EAPIs 0-8; other four shapes: all rotations x EAPIs {0,8}; 8 phase configurations rotating; 1 500 patterns, 25 500 repositories (time cap 25 min, evidence states what was completed)",
+    "quick": "nested shape: 72 rotations (origins spread evenly over the 600 core patterns; 11 variables x 72 = 792 variable/pattern combinations) x EAPIs {0,5,7,8}; none/single/flat/diamond: 12/24/24/36 rotations x EAPIs {0,8}; 10 phase configurations (EXPORT_FUNCTIONS before / after the function definitions, one or both eclasses) rotating; 480 repositories",
+    "thorough": "nested shape: all rotations of the full pattern list (every variable meets every pattern) x EAPIs 0-8; other four shapes: all rotations x EAPIs {0,8}; 10 phase configurations (EXPORT_FUNCTIONS before / after the function definitions, one or both eclasses) rotating; 1 500 patterns, 25 500 repositories (time cap 25 min, evidence states what was completed)",
 }
 
 ACC_ALWAYS = ["IUSE", "REQUIRED_USE", "DEPEND", "RDEPEND", "BDEPEND", "IDEPEND", "PDEPEND"]
@@ -72,16 +72,18 @@ def phases_of(eapi):
     return out
 
 
-# phase configurations: (functions defined in the ebuild, {eclass: (functions defined, phases exported)})
+# phase configurations: (functions defined in the ebuild, {eclass: (functions defined, phases exported[, EXPORT_FUNCTIONS before|after the <eclass>_<phase> definitions])})
 PHASE_CONFIGS = [
     ([], {}),
     (["src_compile"], {}),
-    ([], {"e1": ([], ["src_prepare"])}),
+    ([], {"e1": ([], ["src_prepare"], "before")}),
     ([], {"e2": (["pkg_pretend"], [])}),
     (["my_helper"], {"e2": (["e2_src_test"], [])}),
-    (["pkg_setup"], {"e1": ([], ["src_compile"]), "e2": ([], ["src_compile", "pkg_postinst"])}),
+    (["pkg_setup"], {"e1": ([], ["src_compile"], "after"), "e2": ([], ["src_compile", "pkg_postinst"], "before")}),
     (["src_prepare", "pkg_pretend", "pkg_postinst"], {}),
-    (["src_configure"], {"e1": (["pkg_info"], ["src_test"]), "e2": (["pkg_config"], [])}),
+    (["src_configure"], {"e1": (["pkg_info"], ["src_test"], "before"), "e2": (["pkg_config"], [])}),
+    ([], {"e2": ([], ["src_install", "pkg_preinst"], "before")}),
+    ([], {"e1": ([], ["src_unpack"], "after"), "e2": ([], ["pkg_postrm"], "after")}),
 ]
 
 
@@ -140,12 +142,16 @@ def build_programs(shape, assign, phase_cfg):
     for f in efuncs:
         eb.append(["func", f])
     for name, prog in (("e1", e1), ("e2", e2)):
-        defs, exports = ecfg.get(name, ([], []))
+        cfg = ecfg.get(name, ([], []))
+        defs, exports = cfg[0], cfg[1]
+        order = cfg[2] if len(cfg) > 2 else "after"  # EXPORT_FUNCTIONS before (the usual eclass layout) or after the definitions
         for f in defs:
             prog.append(["func", f])
+        if exports and order == "before":
+            prog.append(["export"] + list(exports))
         for ph in exports:
             prog.append(["func", f"{name}_{ph}"])
-        if exports:
+        if exports and order == "after":
             prog.append(["export"] + list(exports))
     out = {"ebuild": eb}
     if shape in ("nested", "flat", "diamond"):
@@ -386,6 +392,12 @@ def tasks(tier):
     return out
 
 
+def cfg_of(p):
+    """phase configuration riding along with rotation origin p (multiplicative hash: the origins are evenly spaced, a plain
+    modulus would only ever pick a few configurations)"""
+    return ((p * 2654435761) >> 7) % len(PHASE_CONFIGS)
+
+
 def assignment(pats, p):
     return {v: pats[(p + k * STRIDE) % len(pats)] for k, v in enumerate(VARS)}
 
@@ -402,7 +414,7 @@ def work(task):
     try:
         for p in idxs:
             assign = assignment(pats, p)
-            cfg = p % len(PHASE_CONFIGS)
+            cfg = cfg_of(p)
             n, cl, v = check_repo(sc, eapi, shape, assign, cfg)
             regens += 1
             evals += n
@@ -410,7 +422,7 @@ def work(task):
                 classes[k] = classes.get(k, 0) + c
             viol.extend(v)
         if idxs:
-            pr = build_programs(shape, assignment(pats, idxs[0]), idxs[0] % len(PHASE_CONFIGS))
+            pr = build_programs(shape, assignment(pats, idxs[0]), cfg_of(idxs[0]))
             samples.append({"eapi": eapi, "ebuild": render(pr["ebuild"], eapi), "eclasses": {n: render(x) for n, x in pr.items() if n != "ebuild"}})
         # Daemon round trips are the cost: minimise (violated variable alone, no phase functions) only the first two cases
         # of every (key, classifier verdict) group of this task; the other members of a group are counted, not reported.
